@@ -251,3 +251,231 @@ Check standard_line_roundtrip :
               (if st_column cfg then option_map N.of_nat col else None),
               (if st_byte_offset cfg then Some (N.of_nat (k_off sk)) else None),
               terminated (e_lt env) (k_bytes sk)).
+
+(* ---- third round: --max-columns, --max-columns-preview, --trim (Model/StandardCols.v, Spec/ColsSpec.v) ----
+   `gends` is bstr's grapheme segmentation (third party), universally quantified: nothing is assumed about it. *)
+From RG Require Import Model.StandardCols Spec.ColsSpec Proofs.StandardColsProofs.
+
+(* 11. what write_line emits for a line, for every line, configuration, recorded match list and writer: the
+   shown line (the line, under --trim without its longest prefix of ASCII whitespace that is not a terminator
+   byte) + terminator if missing; or — exactly when `length shown > limit`, BYTES, the line's own terminator
+   counted — the notice "[Omitted long matching|context line]" / "[Omitted long line with N matches]" (N known
+   = matches were recorded and the record is not a single -o match), or with --max-columns-preview a prefix
+   of the shown line's bytes that ends at the end of the limit-th grapheme (at most `limit` graphemes, a
+   terminator at the cut dropped), then " [... omitted end of long line]" / " [... N more match(es)]", then the
+   terminator.  See Spec/ColsSpec.v line_or_notice. *)
+Theorem max_columns_line_or_notice :
+  forall gends cfg cc env sk line w,
+    w_out (write_line_c gends cfg cc env sk line w)
+    = w_out w ++ line_or_notice gends (e_lt env) (cc_max cc) (cc_preview cc) (cc_trim cc)
+                   (st_only_matching cfg) (is_context sk) (k_matches sk) line.
+Proof. exact write_line_c_out. Qed.
+Print Assumptions max_columns_line_or_notice.
+
+(* 12. without a limit and without --trim the extended model IS the model of Standard.v, so theorems 2, 7-9 carry over *)
+Theorem no_limit_is_identity :
+  forall gends find_at cfg env,
+    (forall sk line w, write_line_c gends cfg cols_off env sk line w = write_line env line w) /\
+    (forall path sk w, impl_sink_c gends cfg cols_off env path sk w = impl_sink cfg env path sk w) /\
+    (forall path w evs fins,
+       standard_run_c gends find_at cfg cols_off env path w evs fins = standard_run find_at cfg env path w evs fins).
+Proof.
+  intros gends find_at cfg env. split; [|split].
+  - exact (write_line_c_off gends cfg env).
+  - exact (impl_sink_c_off gends cfg env).
+  - exact (standard_run_c_off gends find_at cfg env).
+Qed.
+Print Assumptions no_limit_is_identity.
+
+(* 13. --trim removes a prefix of the line, all of it ASCII whitespace and none of it a terminator byte, and
+   the longest such one *)
+Theorem trim_only_removes_ascii_whitespace_prefix :
+  forall lt line,
+    let k := trim_ascii_prefix lt line 0 (length line) in
+    line = firstn k line ++ sub line k (length line)
+    /\ Forall (fun b => ascii_ws b = true /\ ~ In b (lt_bytes lt)) (firstn k line)
+    /\ match sub line k (length line) with [] => True | b :: _ => trimmable lt b = false end.
+Proof. exact trim_only_removes_ascii_whitespace_prefix_proof. Qed.
+Print Assumptions trim_only_removes_ascii_whitespace_prefix.
+
+(* 14. the coordinates of a record do not depend on the new options: line number, byte offset and column
+   (1 + start of the first match in the UNTRIMMED line) are those of theorem 2; only the text part changes *)
+Theorem cols_record_shape_fast :
+  forall gends cfg cc env path sk w,
+    w_out (sink_fast_c gends cfg cc env path sk w)
+    = w_out w ++ prelude_spec cfg path (separator_field cfg sk) (k_off sk) (k_lnum sk) None
+            ++ line_or_notice gends (e_lt env) (cc_max cc) (cc_preview cc) (cc_trim cc)
+                 (st_only_matching cfg) (is_context sk) (k_matches sk) (k_bytes sk).
+Proof. exact sink_fast_c_layout. Qed.
+Print Assumptions cols_record_shape_fast.
+
+Theorem trim_keeps_untrimmed_columns :
+  forall gends cfg cc env path sk w,
+    st_only_matching cfg = false -> st_per_match cfg = false ->
+    w_out (sink_slow_c gends cfg cc env path sk w)
+    = w_out w ++ prelude_spec cfg path (separator_field cfg sk) (k_off sk) (k_lnum sk)
+                   (Some (fst (nth_span (k_matches sk) 0) + 1))
+            ++ line_or_notice gends (e_lt env) (cc_max cc) (cc_preview cc) (cc_trim cc)
+                 false (is_context sk) (k_matches sk) (k_bytes sk).
+Proof. exact sink_slow_c_layout. Qed.
+Print Assumptions trim_keeps_untrimmed_columns.
+
+(* Observations OUTSIDE property C09 (its text excludes trimming and column limits): the three `_refuted`
+   theorems below refute a *reading of the documentation* of --max-columns / --trim / --vimgrep, not C09; they
+   are proved on the model and replayed on rg (notes/C09.md, "Observations outside the property").
+   (a) the limit counts the line's own terminator: the 3-byte line "abc\n" is omitted under -M 3
+       (the same line without final newline is printed) *)
+Definition ex_gends (b : bytes) : list nat := seq 1 (length b).    (* ASCII: one grapheme per byte *)
+Definition ex_env : senv := mkEnv (LTByte 10%N) false false 0 false false.
+Theorem limit_ignores_terminator_refuted :
+  exists cfg sk line w limit,
+    length (sub line 0 (trim_line_terminator (e_lt ex_env) line 0 (length line))) <= limit /\
+    w_out (write_line_c ex_gends cfg (mkCol (Some limit) false false) ex_env sk line w)
+    <> w_out w ++ terminated (e_lt ex_env) line.
+Proof.
+  exists ex_cfg, (mkSunk [97; 98; 99; 10]%N 0 None None []), [97; 98; 99; 10]%N, w_new, 3.
+  split; [vm_compute; lia|]. vm_compute. discriminate.
+Qed.
+Print Assumptions limit_ignores_terminator_refuted.
+
+(* (b) (documentation reading, not C09) under --trim the " [... N more matches]" count compares match starts in the UNTRIMMED line with a cut
+       in the TRIMMED line: "  foo xxxxxxxx\n", match (2,5), -M 2: the preview "fo" is followed by
+       "1 more match" although no match starts in the hidden part (the count that the spec asks for: matches
+       starting at or after the cut, in the coordinates of the shown line) *)
+Theorem preview_count_under_trim_refuted :
+  exists cfg sk line w limit,
+    let cc := mkCol (Some limit) true true in
+    let k := trim_ascii_prefix (e_lt ex_env) line 0 (length line) in
+    let shifted := map (fun m => (fst m - k, snd m - k)) (filter (fun m => Nat.leb k (fst m)) (k_matches sk)) in
+    w_out (write_line_c ex_gends cfg cc ex_env sk line w)
+    <> w_out w ++ line_or_notice ex_gends (e_lt ex_env) (Some limit) true true
+                    (st_only_matching cfg) (is_context sk) shifted line.
+Proof.
+  exists ex_cfg, (mkSunk [32; 32; 102; 111; 111; 32; 120; 120; 120; 120; 120; 120; 120; 120; 10]%N 0 None None [(2, 5)]),
+         [32; 32; 102; 111; 111; 32; 120; 120; 120; 120; 120; 120; 120; 120; 10]%N, w_new, 2.
+  vm_compute. discriminate.
+Qed.
+Print Assumptions preview_count_under_trim_refuted.
+
+(* non-vacuity / worked examples: "  héllo wörld\n" with -M 4: omitted; with preview: "  h\xc3\xa9" (4 graphemes =
+   5 bytes when `gends` knows é) + notice; --trim + preview: "héll" + notice; -M 20: the line itself *)
+Example cols_example :
+  let line := [32; 32; 104; 195; 169; 108; 108; 111; 10]%N in      (* "  héllo\n" *)
+  let g (b : bytes) : list nat :=                                   (* segmentation of this line and its trimmed form *)
+      if Nat.eqb (length b) 9 then [1; 2; 3; 5; 6; 7; 8; 9] else [1; 3; 4; 5; 6; 7] in
+  let sk := mkSunk line 0 None None [] in
+  w_out (write_line_c g ex_cfg (mkCol (Some 4) false false) ex_env sk line w_new) = msg_omit_match ++ [10]%N /\
+  w_out (write_line_c g ex_cfg (mkCol (Some 4) true false) ex_env sk line w_new)
+    = [32; 32; 104; 195; 169]%N ++ msg_omit_end ++ [10]%N /\
+  w_out (write_line_c g ex_cfg (mkCol (Some 4) true true) ex_env sk line w_new)
+    = [104; 195; 169; 108; 108]%N ++ msg_omit_end ++ [10]%N /\
+  w_out (write_line_c g ex_cfg (mkCol (Some 20) false true) ex_env sk line w_new) = [104; 195; 169; 108; 108; 111; 10]%N.
+Proof. vm_compute. repeat split; reflexivity. Qed.
+
+Check max_columns_line_or_notice :
+  forall gends cfg cc env sk line w,
+    w_out (write_line_c gends cfg cc env sk line w)
+    = w_out w ++ line_or_notice gends (e_lt env) (cc_max cc) (cc_preview cc) (cc_trim cc)
+                   (st_only_matching cfg) (is_context sk) (k_matches sk) line.
+
+(* 15. the other paths through write_line with the new options.  Line-oriented -o / --vimgrep: one record per
+   recorded span, coordinates of the span, the text (the span / the whole line) through line_or_notice —
+   under -o the limit and --trim apply to the MATCH text, and the notice never carries a count *)
+Theorem cols_only_matching_records :
+  forall gends cfg cc env path sk w, st_only_matching cfg = true ->
+    w_out (sink_slow_c gends cfg cc env path sk w)
+    = w_out w ++ concat (map (span_record_c gends cfg cc env path sk true) (k_matches sk)).
+Proof. exact sink_slow_c_only_matching_layout. Qed.
+Print Assumptions cols_only_matching_records.
+
+Theorem cols_per_match_records :
+  forall gends cfg cc env path sk w, st_only_matching cfg = false -> st_per_match cfg = true ->
+    w_out (sink_slow_c gends cfg cc env path sk w)
+    = w_out w ++ concat (map (span_record_c gends cfg cc env path sk false) (k_matches sk)).
+Proof. exact sink_slow_c_per_match_layout. Qed.
+Print Assumptions cols_per_match_records.
+
+(* multi-line block without recorded spans: every line of the block is its own line_or_notice record *)
+Theorem cols_record_shape_multi_line_fast :
+  forall gends cfg cc env path sk w,
+    w_out (sink_fast_multi_line_c gends cfg cc env path sk w)
+    = w_out w ++ block_records_c gends cfg cc env path sk (line_spans (lt_byte (e_lt env)) (k_bytes sk)) 0 (k_off sk).
+Proof. exact sink_fast_multi_line_c_layout. Qed.
+Print Assumptions cols_record_shape_multi_line_fast.
+
+(* multi-line block with recorded spans (-U --column / --stats, no -o / --vimgrep): per line the prelude of
+   theorem 9 and Spec/ColsSpec.v block_line_text — here matches, cut and line end are offsets into the same
+   block, so the "N more matches" count is the number of matches starting in the hidden part of the line.
+   Guard: where Rust's Match::with_end would panic (as in theorem 9, also for the cut line). *)
+Theorem cols_record_shape_multi_line_slow :
+  forall gends cfg cc env path sk w,
+    st_only_matching cfg = false -> st_per_match cfg = false -> k_matches sk <> [] ->
+    Forall (fun se => block_line_guard gends (e_lt env) (cc_max cc) (cc_trim cc) (k_bytes sk) (fst se) (snd se))
+           (line_spans (lt_byte (e_lt env)) (k_bytes sk)) ->
+    w_out (sink_slow_multi_line_c gends cfg cc env path sk w)
+    = w_out w ++ slow_block_records_c gends cfg cc env path sk (line_spans (lt_byte (e_lt env)) (k_bytes sk)) 0.
+Proof. exact sink_slow_multi_line_c_layout. Qed.
+Print Assumptions cols_record_shape_multi_line_slow.
+
+(* non-vacuity: the block "  xa\n   b and more\n" with the match "a\n   b" (3,9), --trim -M 4 --max-columns-preview:
+   the guard holds for both lines and the output is "f:1:4:xa\nf:2:4:b an [... 0 more matches]\n" *)
+Example cols_multi_line_example :
+  let blk := [32; 32; 120; 97; 10; 32; 32; 32; 98; 32; 97; 110; 100; 32; 109; 111; 114; 101; 10]%N in
+  let sk := mkSunk blk 0 (Some 1) None [(3, 9)] in
+  let cc := mkCol (Some 4) true true in
+  let cfg := mkStd false true false false false None true false false None None [58]%N [45]%N None in
+  Forall (fun se => block_line_guard ex_gends (e_lt ex_env) (cc_max cc) (cc_trim cc) blk (fst se) (snd se))
+         (line_spans 10%N blk) /\
+  w_out (sink_slow_multi_line_c ex_gends cfg cc ex_env (Some [102]%N) sk w_new)
+  = [102; 58; 49; 58; 52; 58; 120; 97; 10;
+     102; 58; 50; 58; 52; 58; 98; 32; 97; 110]%N
+    ++ msg_more_open ++ [48]%N ++ msg_more ++ msg_matches_close ++ [10]%N.
+Proof.
+  cbn zeta. split.
+  - vm_compute. repeat constructor; intros limit H; inversion H; subst; vm_compute; repeat constructor.
+  - vm_compute. reflexivity.
+Qed.
+
+(* 16. what is guaranteed about the preview.  For ANY segmentation function: the cut is 0 or the end of one of
+   the first `limit` graphemes it reports (so the preview holds at most `limit` graphemes and never splits one).
+   Under the only fact assumed about bstr's segmentation — every grapheme ends inside the string — the preview
+   is exactly the first k bytes of the shown line with k <= cut <= length. *)
+Theorem preview_cut_at_grapheme_boundary :
+  forall gends limit shown,
+    preview_cut gends limit shown = 0
+    \/ exists i, i < limit /\ nth_error (gends shown) i = Some (preview_cut gends limit shown).
+Proof. exact preview_cut_boundary. Qed.
+Print Assumptions preview_cut_at_grapheme_boundary.
+
+Theorem preview_is_a_prefix_within_the_cut :
+  forall gends lt limit shown,
+    Forall (fun e => e <= length shown) (gends shown) ->
+    let cut := preview_cut gends limit shown in
+    let k := trim_line_terminator lt shown 0 cut in
+    k <= cut /\ cut <= length shown /\ length (firstn k shown) = k.
+Proof. exact preview_prefix_length. Qed.
+Print Assumptions preview_is_a_prefix_within_the_cut.
+
+Example preview_prefix_example :      (* "héllo\n", 3 graphemes: cut 4, preview "hél" *)
+  let shown := [104; 195; 169; 108; 108; 111; 10]%N in
+  let g (_ : bytes) := [1; 3; 4; 5; 6; 7] in
+  Forall (fun e => e <= length shown) (g shown) /\ preview_cut g 3 shown = 4 /\
+  firstn (trim_line_terminator (LTByte 10%N) shown 0 4) shown = [104; 195; 169; 108]%N.
+Proof. vm_compute. repeat split; repeat constructor. Qed.
+
+(* (c) (documentation reading, not C09) --vimgrep prints one line per match even when the match spans lines (per_match_one_line; issue 1866).
+       With a column limit that rule is lost when the first line of the match is too long: the `continue` after
+       write_exceeded_line in sink_slow_multi_per_match also skips the `break`.  "aaaaaaaaaa\nb\n", match (0,12),
+       -M 5: two records (two terminators) for one match; without the limit one record. *)
+Theorem vimgrep_one_line_per_match_refuted :
+  exists cfg sk limit,
+    st_per_match cfg = true /\ st_per_match_one_line cfg = true /\ length (k_matches sk) = 1 /\
+    let env := mkEnv (LTByte 10%N) true false 0 false false in
+    count_occ N.eq_dec (w_out (sink_slow_multi_line_c ex_gends cfg cols_off env None sk w_new)) 10%N = 1 /\
+    count_occ N.eq_dec (w_out (sink_slow_multi_line_c ex_gends cfg (mkCol (Some limit) false false) env None sk w_new)) 10%N = 2.
+Proof.
+  exists (mkStd false true false true true None true false false None None [58]%N [45]%N None),
+         (mkSunk [97; 97; 97; 97; 97; 97; 97; 97; 97; 97; 10; 98; 10]%N 0 (Some 1) None [(0, 12)]), 5.
+  vm_compute. repeat split; reflexivity.
+Qed.
+Print Assumptions vimgrep_one_line_per_match_refuted.
